@@ -433,8 +433,40 @@ func ruleP15Guards(p *Prog, r *Report) {
 	}
 }
 
+// weekStopOf: v is the date a walk in f stops at when its Weekday() equals w (the value tested
+// by the loop's exit condition).
+func weekStopOf(f *ssa.Function, v ssa.Value) (int64, bool) {
+	var w int64
+	found := false
+	eachVInstr(f, func(in ssa.Instruction) {
+		iff, ok := in.(*ssa.If)
+		if !ok {
+			return
+		}
+		bo, ok := iff.Cond.(*ssa.BinOp)
+		if !ok || (bo.Op != token.EQL && bo.Op != token.NEQ) || !accessorOfDate(bo.X, "Weekday") {
+			return
+		}
+		k, isK := constInt(bo.Y)
+		if !isK {
+			return
+		}
+		_, recv, _, _ := methodCall(bo.X)
+		b := iff.Block()
+		eq := b.Succs[0]
+		if bo.Op == token.NEQ {
+			eq = b.Succs[1]
+		}
+		if recv != nil && v != nil && (sameValue(recv, v) || strip(recv) == strip(v)) && !reachableFrom(eq, nil)[b] {
+			w, found = k, true
+		}
+	})
+	return w, found
+}
+
 func ruleP15Steps(p *Prog, r *Report) {
 	const rule = "P15-steps"
+	var derivedWeekEnds []int64
 	type lim struct {
 		kind, method string
 		lo, hi       int64 // allowed |step| range
@@ -474,6 +506,16 @@ func ruleP15Steps(p *Prog, r *Report) {
 				abs = -abs
 			}
 			okSign := l.sign == 0 || (l.sign < 0) == (k < 0)
+			// the other end of a week computed directly: six days on from the Monday (six days back
+			// from the Sunday) the walk has just stopped at
+			if l.kind == "Week" && l.method == "Period" && abs == 6 {
+				_, recv, _, _ := methodCallOf(c)
+				if w, isStop := weekStopOf(f, recv); isStop && ((w == 1 && k == 6) || (w == 7 && k == -6)) {
+					r.ok(rule, key, p.instrPos(c), "the other end of the week: %+d days from the weekday-%d end the walk stopped at", k, w)
+					derivedWeekEnds = append(derivedWeekEnds, 8-w)
+					return
+				}
+			}
 			r.check(okSign && abs >= l.lo && abs <= l.hi, rule, key, p.instrPos(c), fmt.Sprintf("step %d lies in the interval that can never skip a %s", k, strings.ToLower(l.kind)), fmt.Sprintf("a step of %d days can skip a %s (allowed: %d..%d %s)", k, strings.ToLower(l.kind), l.lo, l.hi, map[int64]string{-1: "backward", 0: "either way", 1: "forward"}[l.sign]))
 		})
 		if ord == 0 {
@@ -503,6 +545,7 @@ func ruleP15Steps(p *Prog, r *Report) {
 				}
 			}
 		})
+		ks = append(ks, derivedWeekEnds...)
 		ok := len(ks) == 2 && ((ks[0] == 1 && ks[1] == 7) || (ks[0] == 7 && ks[1] == 1))
 		r.check(ok, rule, "Week.Period:bounds", p.pos(wp.Pos()), "the week walks back to Monday (1) and forward to Sunday (7)", fmt.Sprintf("the week's bounds are weekdays %v, expected Monday=1 and Sunday=7", ks))
 	}
